@@ -137,7 +137,7 @@ def kernel_specs(d, tier):
             eds = [ED()]
             eds += [ED(al=v) for v in (AL[0], AL[2])] + [ED(ml=v) for v in (ML[0], ML[2])]
             eds += [ED(ga=v) for v in (GA[0], GA[2])] + [ED(de=v) for v in (DE[0], DE[2])]
-            eds += [ED(de=0.0, fixed=True), ED(mx_={"m": "zero"})]
+            eds += [ED(de=0.0, fixed=True), ED(de=0.5, fixed=True), ED(mx_={"m": "zero"})]
         else:
             eds = [ED(al=a, ml=b, ga=c, de=e) for a in AL for b in ML for c in GA for e in DE]
             eds += [ED(kx=M(d - 1, [ib], cs)) for ib in (IB[0], IB[2]) for cs in (CS[0], CS[2])]
@@ -158,7 +158,8 @@ def full_data_specs(d, tier):
            ("m52ardcs" if d > 1 else "m52cs", M(d, [1.0] * d if d > 1 else [1.0], 1.0), std_means),
            ("m52cs", M(d, [1e-3], 1e-2), std_means),
            ("warped", _warped(M(d, [1.0] * d if d > 1 else [1.0], 1.0), [{"range": [0, d], "a": cyc_a, "b": cyc_b}]),
-            std_means)]
+            std_means),
+           ("tuple", {"k": "scaled", "base": M(d, [1.0]), "scale": 50.0}, std_means)]
     return out
 
 
@@ -223,17 +224,19 @@ def n_multisets(k, n):
 
 # ------------------------------------------------------------------------------ group = one (noise, X)
 
-def run_group(ctx, noise, idx, all_targets, means_used, joint_idx, replay_base):
+def run_group(ctx, noise, idx, all_targets, means_used, joint_idx, replay_base, thin_other_means=False):
     """All states for one training multiset: every (mean, target vector) as a single-column state, two fantasy
     states (m=2, m=3).  The first state gets the full battery (three test sets, variance bounds, NLML, joint
     covariance, textbook cross-check, GaussianProcessRegression path)."""
     n = len(idx)
     T = targets(n, all_targets)
-    combos = [(k, j) for k in means_used for j in range(len(T))]
+    combos = [(k, j) for a, k in enumerate(means_used) for j in range(len(T))
+              if a == 0 or not thin_other_means or j < 2]
     Y = np.array([T[j] for _, j in combos], dtype=float).T          # (n, n_combos)
     colmean = [k for k, _ in combos]
     rp = dict(replay_base, noise=noise, idx=list(idx), X=ctx.P[np.array(idx)].tolist(),
-              all_targets=bool(all_targets), means_used=list(means_used), joint_idx=list(joint_idx))
+              all_targets=bool(all_targets), means_used=list(means_used), joint_idx=list(joint_idx),
+              thin=bool(thin_other_means))
     try:
         rc = RefCase(ctx, idx, noise, Y, colmean)
     except Exception as e:  # noqa: BLE001  (reference failed: harness problem, not a finding)
@@ -263,7 +266,7 @@ def run_group(ctx, noise, idx, all_targets, means_used, joint_idx, replay_base):
     rc_use = rc
     jit = ck.detect_jitter(ctx, st, rc, noise, pat, rp)
     if jit is None:
-        return
+        jit = 0.0          # violation recorded; the comparisons below say which outputs are affected
     if jit > 0.0:
         # compared against the reference with the same jitter added
         rc_use = RefCase(ctx, idx, noise + jit, Y, colmean)
@@ -432,6 +435,18 @@ def apply_op(ctx, nd, op, k, rp):
             ctx.V.add(f"incr/state-shape:{pat}", f"chol_fact {L.shape}, pred_mat {np.asarray(ch.st.pred_mat).shape}", rp)
             return None
         if L[-1, -1] ** 2 <= 4.0 * ck.MIN_CHOL_DIAG ** 2:
+            # documented clamp of the new pivot at MIN_CHOLESKY_DIAGONAL_VALUE^2.  Admissible only if the exact Schur
+            # complement s = 1/(A^-1)_nn of the extended reference matrix is zero within its rounding bound.
+            rcc = _node_ref(ctx, ch, k)
+            ainv = rcc.gp.Ainv
+            s_ref = 1.0 / ainv[-1, -1]
+            v = np.abs(ainv[:, -1] / ainv[-1, -1])
+            tol_s = rcc.B.amp * float(v @ rcc.B.E @ v)
+            if s_ref - tol_s > 4.0 * ck.MIN_CHOL_DIAG ** 2:
+                ctx.V.add(f"incr/pivot-clamped-unjustified:{pat}",
+                          f"new Cholesky pivot clamped to {L[-1, -1] ** 2:.3g} although the exact Schur complement is "
+                          f"{s_ref:.6g} (rounding bound {tol_s:.3g})", rp)
+                return None
             ctx.cov.outcome("excluded_update_clamped_pivot")
             return None
         return ch
@@ -463,7 +478,7 @@ def run_tree(ctx, noise, k, idx0, m0, xs, depth, tier, test_idx, replay_base, on
     if not root.rc.singular:
         jit = ck.detect_jitter(ctx, root.st, root.rc, noise, f"{ctx.fam}:seq=:root", rp0)
         if jit is None:
-            return
+            jit = 0.0
         if jit > 0:
             root.diag = np.full(n0, noise + jit)
             root.rc = RefCase(ctx, root.idx, root.diag, root.Y, [k] * m0)
@@ -516,7 +531,7 @@ def data_plan(block, d, tier):
     s6, s4 = sub_alphabet(d, 6), sub_alphabet(d, 4)
     if block == "P":
         if tier == "quick":
-            return [(1, s4, True, False), (2, s4, True, False), (3, s4, False, False), (5, sub_alphabet(d, 3), False, True)]
+            return [(1, s4, True, False), (2, s4, False, False), (3, s4, False, False), (5, sub_alphabet(d, 3), False, True)]
         return [(1, s6, True, False), (2, s6, True, False), (3, s6, False, False), (5, s4, False, False)]
     if block == "C":
         return [(1, s4, True, True), (2, s4, True, True), (3, s4, False, True), (5, sub_alphabet(d, 3), False, True)]
@@ -556,13 +571,15 @@ def make_tasks(tier):
                         tasks.append(dict(block="D", d=d, spec=i, tier=tier, noises=[noise], plan=pi, chunk=c,
                                           chunk_size=size, w=min(total, size) / 100.0))
         # block Q: operation sequences
-        useq = [0, 3] if tier == "quick" else [0, 1, 2, 3]
-        noises = [NOISE[0], NOISE[2]] if tier == "quick" else list(NOISE)
+        if tier == "quick":
+            plan = [(0, NOISE[0]), (0, NOISE[2]), (4, NOISE[0]), (4, NOISE[2]), (3, NOISE[1])]
+        else:
+            plan = [(i, noise) for i in (0, 1, 2, 3, 4) for noise in NOISE]
         s3 = sub_alphabet(d, 3)
         inits = [(s3[0],), (s3[0], s3[0]), (s3[0], s3[2])] if tier == "quick" else \
             [tuple(c) for n0 in (1, 2) for c in multisets(s3, n0)]
-        for i in useq:
-            for noise in noises:
+        for i, noise in plan:
+            if True:
                 for idx0 in inits:
                     for m0 in (1, 3):
                         tasks.append(dict(block="Q", d=d, spec=i, tier=tier, noises=[noise], idx0=list(idx0), m0=m0,
@@ -596,14 +613,14 @@ def task(t):
             for n, alpha, allt, single in data_plan(t["block"], d, tier):
                 mu = [0] if single else list(range(len(means)))
                 for idx in multisets(alpha, n):
-                    run_group(ctx, noise, idx, allt, mu, joint_idx, base)
+                    run_group(ctx, noise, idx, allt, mu, joint_idx, base, tier == "quick")
     elif t["block"] == "D":
         n, alpha, allt, single = data_plan("D", d, tier)[t["plan"]]
         mu = [0] if single else list(range(len(means)))
         it = multisets(alpha, n)
         lo = t["chunk"] * t["chunk_size"]
         for idx in itertools.islice(it, lo, lo + t["chunk_size"]):
-            run_group(ctx, t["noises"][0], idx, allt, mu, joint_idx, base)
+            run_group(ctx, t["noises"][0], idx, allt, mu, joint_idx, base, tier == "quick")
     else:
         xs, depth, test_idx = q_params(d, tier)
         run_tree(ctx, t["noises"][0], 0, tuple(t["idx0"]), t["m0"], xs, depth, tier, test_idx, base)
@@ -687,5 +704,5 @@ def replay(data):
                  data["test_idx"], base, only_seq=list(data.get("ops", [])))
     else:
         run_group(ctx, data["noise"], tuple(data["idx"]), data["all_targets"], data["means_used"], data["joint_idx"],
-                  base)
+                  base, data.get("thin", False))
     return ctx.finish()[1]
